@@ -88,9 +88,9 @@ class SolarSystem:
             msg = 'both passed items must belong to this solar system'
             raise ItemSolarSystemMismatchError(msg)
         ctc_range = sqrt(
-            (item1.x - item2.x) ** 2 +
-            (item1.y - item2.y) ** 2 +
-            (item1.z - item2.z) ** 2)
+            (item1.coordinate.x - item2.coordinate.x) ** 2 +
+            (item1.coordinate.y - item2.coordinate.y) ** 2 +
+            (item1.coordinate.z - item2.coordinate.z) ** 2)
         return ctc_range
 
     def get_sts_range(self, item1, item2):
